@@ -262,16 +262,14 @@ func Ite(c, a, b *Term) *Term {
 			return Not(c)
 		}
 		// one constant branch: plain connectives instead of a Boolean ite
-		if a.IsTrue() {
+		if noBIte {
+		} else if a.IsTrue() {
 			return Or(c, b)
-		}
-		if a.IsFalse() {
+		} else if a.IsFalse() {
 			return And(Not(c), b)
-		}
-		if b.IsTrue() {
+		} else if b.IsTrue() {
 			return Or(Not(c), a)
-		}
-		if b.IsFalse() {
+		} else if b.IsFalse() {
 			return And(c, a)
 		}
 	}
